@@ -22,6 +22,7 @@ from __future__ import annotations
 
 import copy
 import json
+import re
 
 from .. import fp, known
 from ..core import Eval, Family, HarnessError
@@ -212,8 +213,13 @@ def _failure_rows(exc, backend):
     except Exception:
         return ["<unreadable failure_cases: %s>" % type(fc).__name__]
     for r in recs:
+        case_ = str(r.get("failure_case"))
+        if r.get("index") is None and re.match(r"^[A-Za-z_]+(Error|Exception)\(", case_):
+            # a check that crashed: the library's error text (which of several regex-matched columns polars names first,
+            # addresses, ...) is not part of the comparison, the exception type is
+            case_ = case_.split("(", 1)[0] + "(...)"
         rows.append(json.dumps([str(r.get("schema_context")), str(r.get("column")), str(r.get("check")),
-                                str(r.get("failure_case")), str(r.get("index"))]))
+                                case_, str(r.get("index"))]))
     return sorted(rows)
 
 
@@ -386,6 +392,15 @@ def evaluate(case):
                     fm, fe = _failure_rows(om["exc"], backend), _failure_rows(oe["exc"], backend)
                     if fm != fe:
                         ev.add("validate-failure-cases-differ" + suffix, {**det, "model_fc": fm[:12], "object_api_fc": fe[:12]})
+            # other public entry points of the model class that work through its (cached) schema: whatever they return
+            # or raise, to_schema() afterwards is what it was
+            for meth in ("empty", "to_json_schema", "get_metadata"):
+                fnm = getattr(cls, meth, None)
+                if callable(fnm):
+                    try:
+                        fnm()
+                    except Exception:  # noqa: BLE001 - e.g. empty() is not defined for MultiIndex models
+                        ev.labels.append(f"{meth}-raised")
             # validation must not leave the model's cached schema in another state than the object-API schema
             after_m = SM.diff(first[t], _safe_summ(cls.to_schema()))
             after_e = SM.diff(want0, SM.summarize(want))
